@@ -13,7 +13,9 @@ RULE = ("pure part: path templates from the corpus, from a grammar of the AIP cl
         "spaces, percent signs, unicode, '/' and newlines. One case = one (template, value) pair, distinct by canonical JSON, "
         "non-trivial when the template has a named segment. Implicit part: structured http path templates (0-3 variables, dotted and "
         "reserved names, sub-patterns) and noisy strings. End to end: generated APIs (explicit rules of 1-4 parameters with shared "
-        "keys, nested and reserved fields, request type in the API package or in a proto sub-package, no template / class templates; implicit rules incl. custom http patterns; no rule; paginated "
+        "keys, nested and reserved fields, request type in the API package or in a proto sub-package, no template / class templates; implicit rules incl. custom http patterns; no rule; request fields named by the parameters / path variables declared proto3 optional "
+        "in most of the drawn APIs and in a fixed corpus API (top-level and nested, with and without template) and then valued unset / present but empty "
+        "(assigned '') / non-empty while the other fields contribute, incl. a template-less parameter sharing its key with a templated one and listed last or first; paginated "
         "methods listed over three pages with the header checked on every request; sequences of two and three calls on one client "
         "sharing one caller-owned metadata list / tuple / the default, with different requests per call; one fixed API "
         "through the alternative Ads template tree, sync gRPC only), each method called through the "
@@ -221,6 +223,20 @@ def req_cls(methods):
     return PKG + (".shared" if methods and methods[0].get("subpkg") else "") + ".types:RouteRequest"
 
 
+def canon_path(p):
+    """sub.* and v2.* are fields of the same message type Sub."""
+    return "sub." + p[3:] if p.startswith("v2.") else p
+
+
+def optional_of(methods):
+    """The field paths (canonical) that the request message of this API declares proto3 `optional`."""
+    return {canon_path(p) for m in methods for p in m.get("optional", [])}
+
+
+def is_optional(m, field):
+    return canon_path(field) in {canon_path(p) for p in m.get("optional", [])}
+
+
 def build_api(r, methods):
     """methods: [{'name','kind':'explicit'|'implicit'|'none','params':[(field, template|None)],'http':(verb, uri)}]"""
     f = File("google/example/library/v1/library.proto", "google.example.library.v1",
@@ -231,17 +247,24 @@ def build_api(r, methods):
     if subpkg:
         g = File("google/example/library/v1/shared/shared.proto", "google.example.library.v1.shared", deps=list(apigen.STD_DEPS))
         f.dep(g.proto.name)
+    # m["optional"]: field paths declared proto3 `optional` (explicit presence: "" can be present); the request message is
+    # shared by the methods of one API, so the union counts, and sub.* / v2.* are one message type
+    opt = optional_of(methods)
     inner = g.message("Inner")
-    inner.field("id", 1, "string").field("class", 2, "string").field("ipv4_range", 3, "string")
+    for k, n in enumerate(["id", "class", "ipv4_range"], 1):
+        inner.field(n, k, "string", optional="sub.inner." + n in opt)
     sub = g.message("Sub")
-    sub.field("name", 1, "string").field("class", 2, "string").field("type", 3, "string").field("inner", 4, inner.fqn).field("isbn13", 5, "string")
+    for k, n in enumerate(["name", "class", "type"], 1):
+        sub.field(n, k, "string", optional="sub." + n in opt)
+    sub.field("inner", 4, inner.fqn).field("isbn13", 5, "string", optional="sub.isbn13" in opt)
     req = g.message("RouteRequest")
     for i, n in enumerate(["name", "parent", "table_name", "app_profile_id", "resource", "class", "type"], 1):
-        req.field(n, i, "string")
+        req.field(n, i, "string", optional=n in opt)
     req.field("sub", 8, sub.fqn)
     req.field("payload", 9, "string")
     req.field("page_size", 10, "int32").field("page_token", 11, "string")
-    req.field("oauth2_client_id", 12, "string").field("name_v2", 13, "string").field("v2", 14, sub.fqn)
+    req.field("oauth2_client_id", 12, "string", optional="oauth2_client_id" in opt).field("name_v2", 13, "string", optional="name_v2" in opt)
+    req.field("v2", 14, sub.fqn)
     resp = f.message("RouteResponse")
     resp.field("ok", 1, "string")
     lresp = f.message("ListRoutesResponse")       # with page_size/page_token in the request: a paginated method
@@ -316,6 +339,27 @@ def gen_methods(r, n):
             m["paged"] = True          # listed page by page: every request of the listing must carry the header
     if out and r.random() < 0.3:
         out[0]["subpkg"] = True        # the request type lives in a proto sub-package of the API (another Python package, still proto-plus)
+    # (these draws come last: the shapes drawn above are what they were before this dimension existed)
+    # a parameter without a template sharing its key with a templated one on another field, listed LAST or FIRST
+    plain_ok = ["name", "parent", "table_name", "app_profile_id", "resource", "oauth2_client_id", "name_v2"]
+    forced = set()
+    for m in out:
+        if m["kind"] == "explicit" and m["params"] and r.random() < 0.35:
+            pf = r.choice(plain_ok)
+            other = r.choice([f for f in FIELD_PATHS if f != pf])
+            t = G.gen_class_template(r, allow_short=False)
+            t = t.replace("{" + G.parse_template(t)["key"], "{" + pf, 1)
+            if r.random() < 0.5:
+                m["params"] = list(m["params"]) + [(other, t), (pf, None)]
+            else:
+                m["params"] = [(pf, None), (other, t)] + list(m["params"])
+            forced.add(pf)
+    # presence: some of the fields named by routing parameters / path variables are proto3 `optional` in the request message
+    if r.random() < 0.7:
+        used = sorted({canon_path(f) for m in out for f, _ in m["params"]} | {canon_path(v) for m in out for v in m.get("vars", [])})
+        opt = sorted({f for f in used if r.random() < 0.5} | forced)
+        for m in out:
+            m["optional"] = opt      # one request message per API
     return out
 
 
@@ -357,7 +401,36 @@ def gen_requests(r, m, n):
         else:
             vals["name"] = G.rand_seg(r)
         reqs.append(vals)
+    reqs += presence_requests(r, m)
     return reqs
+
+
+def presence_requests(r, m, limit=3):
+    """For the proto3-optional fields a method routes on: every other field contributing, and this one
+    unset / present but empty (assigned "") / non-empty. A key in the valuation is an assignment, so "" on an optional field is
+    a field that is PRESENT and EMPTY in the request the client gets."""
+    fields = []
+    for f in [f for f, _ in m["params"]] + list(m.get("vars", [])):
+        if f not in fields:
+            fields.append(f)
+    opts = [f for f in fields if is_optional(m, f)]
+    if not opts:
+        return []
+    base = {}
+    for f in fields:
+        ts = [t for ff, t in m["params"] if ff == f and t is not None]
+        tm = G.parse_template(ts[0]) if ts else None
+        if tm is not None:
+            base[f] = "/".join(x or "e" for x in G.instantiate(r, tm["pre"] + tm["sub"] + tm["post"]))
+        else:
+            base[f] = r.choice(["prof-1", "p/q r", "shelves/s1"])
+    out = [dict(base)]
+    for f in opts[:limit]:
+        out.append(dict(base, **{f: ""}))
+        out.append({k: v for k, v in base.items() if k != f})
+    if len(opts) > 1:
+        out.append(dict(base, **{f: "" for f in opts}))
+    return out
 
 
 def http_vars(uri):
@@ -378,6 +451,9 @@ def expected_for(m, vals):
     if m["kind"] == "explicit":
         pairs = []
         for field, t in m["params"]:
+            # unset and present-but-empty (proto3 optional field assigned "") are the same thing to AIP-4222: an EMPTY field
+            # contributes nothing, so whatever an earlier parameter captured under the same key stays (expected_header: last
+            # CONTRIBUTION wins, not last parameter)
             v = vals.get(field, "")
             if t is None:
                 if v:
@@ -391,6 +467,35 @@ def expected_for(m, vals):
         pairs = [(v, vals.get(v, "")) for v in http_vars(m["http"][1])]
         return "&".join(G.url_encode(k) + "=" + G.url_encode(v) for k, v in pairs) if pairs else None
     return None
+
+
+def presence_feats(m, vals):
+    """Which presence situations of proto3-optional routing fields one call exercises (evidence histogram)."""
+    fs = []
+    fields = [f for f, _ in m["params"]] + list(m.get("vars", []))
+    for j, f in enumerate(fields):
+        if not is_optional(m, f):
+            continue
+        tmpl = m["kind"] == "explicit" and m["params"][j][1] is not None
+        st = "unset" if f not in vals else ("present-empty" if vals[f] == "" else "non-empty")
+        fs.append(f"optional-field:{'nested' if '.' in f else 'top'}:{'template' if tmpl else 'plain' if m['kind'] == 'explicit' else 'implicit'}:{st}")
+        if st == "present-empty" and m["kind"] == "explicit":
+            key = f if not tmpl else G.parse_template(m["params"][j][1])["key"]
+            keys = [ff if t is None else G.parse_template(t)["key"] for ff, t in m["params"]]
+            if key in keys[:j]:
+                fs.append("optional-empty:shares-key:listed-after")
+            if key in keys[j + 1:]:
+                fs.append("optional-empty:shares-key:listed-before")
+    return sorted(set(fs))
+
+
+def presence_note(m, vals):
+    """Words for a failing call in which an optional routing field is present but empty."""
+    pe = [f for f in dict.fromkeys([f for f, _ in m["params"]] + list(m.get("vars", []))) if is_optional(m, f) and vals.get(f, None) == ""]
+    if not pe or m["kind"] != "explicit":
+        return ""
+    return (f" -- field(s) {pe} are proto3 optional and PRESENT BUT EMPTY in the request; AIP-4222: an empty field contributes nothing, "
+            f"whether unset or set to the empty string, so what an earlier parameter captured for the same key stays")
 
 
 # ---- T1: the emitted routing block read with ast ----
@@ -721,7 +826,7 @@ def run_e2e(ctx, n_apis, nreq, reserved, tag="e2e", fixed=None, sequences=0):
                          f"{'the default metadata' if kind == 'default' else 'the same ' + kind + ' ' + str(SEQ_MD) + ' passed as metadata'}")
                 if got != want_l:
                     ctx.violation(f"{where}: the server saw {ROUTING_KEY}={got}, the property requires {want_l} for request {vals} "
-                                  f"(requests of the sequence: {reqs})", scase)
+                                  f"(requests of the sequence: {reqs})" + presence_note(m, vals), scase)
                     break
                 if kind != "default" and custom != ["1"]:
                     ctx.violation(f"{where}: the caller's own entry x-custom arrived as {custom}", scase)
@@ -743,7 +848,7 @@ def run_e2e(ctx, n_apis, nreq, reserved, tag="e2e", fixed=None, sequences=0):
         for rec, (m, vals, tr) in zip(out, meta):
             case = {"e2e_index": i, "method": m, "values": vals, "transport": tr, "request_b64": case0["request_b64"], "methods": methods}
             obs = observed_headers(rec, tr)
-            kind_feats = [f"e2e:{m['kind']}", f"transport:{tr}"]
+            kind_feats = [f"e2e:{m['kind']}", f"transport:{tr}"] + presence_feats(m, vals)
             if obs is None:
                 # the call never reached the server (REST transcoding rejects values that do not fit the http pattern)
                 ctx.features[f"e2e:not-sent:{tr}"] += 1
@@ -756,7 +861,7 @@ def run_e2e(ctx, n_apis, nreq, reserved, tag="e2e", fixed=None, sequences=0):
                      feature=kind_feats + (["e2e:header-expected"] if want is not None else ["e2e:no-header-expected"]))
             want_l = [] if want is None else [want]
             if obs != want_l:
-                what = f"{m['name']} via {tr}: server saw {ROUTING_KEY}={obs}, the property requires {want_l} for request {vals}"
+                what = f"{m['name']} via {tr}: server saw {ROUTING_KEY}={obs}, the property requires {want_l} for request {vals}" + presence_note(m, vals)
                 if has_nl:
                     deferred.append((what, case, "routing.newline_value"))
                 else:
@@ -809,6 +914,10 @@ ADS_METHODS = [
      "requests": [{"name": "shelves/s1", "sub.class": "c d"}]},
     {"name": "RouteE", "kind": "none", "params": [], "http": ("post", "/v1/e:plain"), "body": "*"},
     {"name": "RouteF", "kind": "implicit", "params": [], "http": ("custom", "/v1/{type=things/*}"), "body": None, "vars": ["type"]},
+    # proto3 optional routing fields (the request message is shared: app_profile_id and sub.name are optional in all of the above)
+    {"name": "RouteG", "kind": "explicit", "params": [("name", "{app_profile_id=projects/*}/**"), ("app_profile_id", None), ("sub.name", None)],
+     "http": ("post", "/v1/g:route"), "body": "*", "optional": ["app_profile_id", "sub.name"],
+     "requests": [{"name": "projects/p1/things/t1", "app_profile_id": ""}, {"name": "projects/p1/things/t1", "app_profile_id": "", "sub.name": ""}]},
 ]
 
 
@@ -870,9 +979,9 @@ def run_ads(ctx, reserved, methods=None, tag="ads"):
             continue
         want = expected_for(m, vals)
         want_l = [] if want is None else [want]
-        ctx.case({"ads": True, "method": m["name"], "values": vals}, nontrivial=m["kind"] != "none", feature=[f"ads:{m['kind']}"])
+        ctx.case({"ads": True, "method": m["name"], "values": vals}, nontrivial=m["kind"] != "none", feature=[f"ads:{m['kind']}"] + presence_feats(m, vals))
         if obs != want_l:
-            what = f"ads templates, {m['name']} via grpc: server saw {ROUTING_KEY}={obs}, the property requires {want_l} for request {vals}"
+            what = f"ads templates, {m['name']} via grpc: server saw {ROUTING_KEY}={obs}, the property requires {want_l} for request {vals}" + presence_note(m, vals)
             if any("\n" in v for v in vals.values()):
                 deferred.append((what, case, "routing.newline_value"))
             else:
